@@ -284,12 +284,16 @@ void small_free_memory_list::insert(void* mem, std::size_t size) noexcept
 
 std::size_t small_free_memory_list::usable_size(std::size_t size) const noexcept
 {
+    // the same computation as in insert()
     auto total_chunk_size = chunk_memory_offset + node_size_ * chunk_max_nodes;
-    auto no_chunks        = size / total_chunk_size;
-    auto remainder        = size % total_chunk_size;
+    total_chunk_size += align_offset(total_chunk_size, alignof(chunk));
+    auto no_chunks = size / total_chunk_size;
+    auto remainder = size % total_chunk_size;
 
     return no_chunks * chunk_max_nodes * node_size_
-           + (remainder > chunk_memory_offset ? remainder - chunk_memory_offset : 0u);
+           + (remainder > chunk_memory_offset ?
+                  (remainder - chunk_memory_offset) / node_size_ * node_size_ :
+                  0u);
 }
 
 void* small_free_memory_list::allocate() noexcept
